@@ -20,6 +20,8 @@ SPACES = {
         # many links over few pairs (stack / queue growth, repeated neighbours): up to 8 links
         (dict(nv=3, maxl=8, minl=4, classes=("D",), pairs=[(0, 1), (0, 2)]), "REDUCED"),
         (dict(nv=3, maxl=6, minl=4, classes=("D",), pairs=[(0, 1), (0, 2), (1, 2)]), "REDUCED"),
+        # the last vertex is a twin of the first (distinct object, same uid)
+        (dict(nv=3, maxl=3, classes=("D", "U"), twin=True), "REDUCED"),
     ],
     "thorough": [
         (dict(nv=5, maxl=4, minl=4, classes=("D",), self_loops=False), "LEAN"),
@@ -28,6 +30,7 @@ SPACES = {
         (dict(nv=4, maxl=3, minl=3, classes=("D", "U", "O")), "REDUCED"),
         (dict(nv=3, maxl=4, minl=4, classes=("D", "U")), "REDUCED"),
         (dict(nv=3, maxl=2, classes=("D", "U", "O"), mutations=True), "FULL"),
+        (dict(nv=4, maxl=3, classes=("D", "U"), twin=True), "REDUCED"),
     ],
 }
 CFG = {"FULL": trav.FULL, "REDUCED": trav.REDUCED, "LEAN": trav.LEAN, "FAMILY": trav.FAMILY, "FALSY": trav.FALSY}
